@@ -93,7 +93,7 @@ Definition in_domain (sc : sscenario) : bool :=
                     | _ => true
                     end) (ss_events sc).
 
-Definition expected_sends (sc : sscenario) : list exp * bool :=
+Definition expected_sends (sc : sscenario) : list exp * bool * list N :=
   let initial := flat_map (fun p => match accepted sc (snd p) with
                                     | Some e => let tv := fst p + ss_resolve sc in
                                                 match vals_at sc tv with
@@ -109,11 +109,18 @@ Definition expected_sends (sc : sscenario) : list exp * bool :=
   let '(cyc, amb) := if ss_interval sc =? 0 then ([], false)
                      else cyclic_rounds 4000 sc None (ss_events sc) in
   let cyclic := flat_map (fun T => round_exp sc T (map fst (vals_at sc (T + ss_resolve sc)))) cyc in
-  (* explicit rounds are judged only when nothing else happens at that instant (the snapshot is taken one hop later) *)
-  let amb2 := existsb (fun p => match snd p with SNotifyOnce _ => 1 <? busy_at sc (fst p) | _ => false end) (ss_events sc) in
+  (* explicit rounds are judged only when nothing but explicit rounds happens at that instant (the snapshot of the
+     subscribers is taken one hop later); several explicit rounds requested in one instant are each owed.  The
+     transmissions of the other instants are not judged (ambt), everything else is *)
+  let ambt := flat_map (fun p => match snd p with
+                                 | SNotifyOnce _ =>
+                                     if existsb (fun q => (fst q =? fst p) && match snd q with SNotifyOnce _ => false | _ => true end) (ss_events sc)
+                                     then [fst p + ss_resolve sc] else []
+                                 | _ => []
+                                 end) (ss_events sc) in
   let amb3 := existsb (fun p => match snd p with SSetValue _ _ => negb (ss_resolve sc =? 0) | _ => false end) (ss_events sc)
               && false in
-  (filter (fun x => fst (fst x) <=? ss_end sc) (initial ++ once ++ cyclic), amb || amb2 || amb3).
+  (filter (fun x => (fst (fst x) <=? ss_end sc) && negb (memN (fst (fst x)) ambt)) (initial ++ once ++ cyclic), amb || amb3, ambt).
 
 (* what the trace shows *)
 Definition decode_notifications (w_svc w_major : N) (data : bytes) : option (list (N * N * bytes)) :=  (* (event, session id, payload) *)
@@ -167,8 +174,9 @@ Definition check_C17 (sc : sscenario) (tr : strace) : list N :=
                               | Some l => (fst (fst (fst x)), snd (fst (fst x)), map (fun n => (fst (fst n), snd n)) l)
                               | None => (0, 0, [])
                               end) decoded in
-  let '(expected, amb) := expected_sends sc in
-  let c3 := if amb || negb (in_domain sc) then [] else if multiset_eqb actual expected then [] else [3] in
+  let '(expected, amb, ambt) := expected_sends sc in
+  let c3 := if amb || negb (in_domain sc) then []
+            else if multiset_eqb (filter (fun x => negb (memN (fst (fst x)) ambt)) actual) expected then [] else [3] in
   let naks := len (filter (fun p => match snd p with SvNak => true | _ => false end) tr) in
   let c5 := if naks =? len (filter (fun p => refused sc (snd p)) (ss_events sc)) then [] else [5] in
   c2 ++ c3 ++ c5.
